@@ -119,6 +119,7 @@ type Interp struct {
 	sample    string
 	fnStack   []*ssa.Function
 	inYield    bool
+	initPhase  bool
 	blobs      map[*SymStr]*blobRec
 	tsGhost    map[*Obj]TimeV
 	drawCursor int
@@ -511,6 +512,12 @@ func (in *Interp) callSSA(caller *frame, fn *ssa.Function, args []Value, binding
 	}
 	if fn.Name() == "init" && fn.Synthetic != "" && (!in.eng.interpretedFn(fn) || (fn.Pkg != nil && skipInit[fn.Pkg.Pkg.Path()])) {
 		return nil // initializer of a library package that is not interpreted
+	}
+	if (len(fn.Blocks) == 0 || !in.eng.interpretedFn(fn)) && in.initPhase {
+		// package initialisation: library set-up calls (flags, templates, metrics,
+		// executable paths) are irrelevant to the harness; give them opaque results
+		in.note("init-lenient:" + fn.String())
+		return in.lenientResult(fn)
 	}
 	if len(fn.Blocks) == 0 || !in.eng.interpretedFn(fn) {
 		in.unsupported("callee %s (no body / not interpreted) at %s", fn.String(), in.posStr(pos))
@@ -1187,4 +1194,34 @@ func (in *Interp) genericStub(kind string, fn *ssa.Function, args []Value, pos t
 	}
 	in.unsupported("unknown stub kind %s", kind)
 	return nil
+}
+
+// lenientResult fabricates a result for a library call made during package initialisation.
+func (in *Interp) lenientResult(fn *ssa.Function) Value {
+	res := fn.Signature.Results()
+	mk := func(t types.Type) Value {
+		switch u := t.Underlying().(type) {
+		case *types.Pointer:
+			if _, isStruct := u.Elem().Underlying().(*types.Struct); isStruct {
+				o := in.newObj(OpaqueV{Tag: "lib:" + fn.Name()}, u.Elem(), "lib")
+				o.heap = true
+				return PtrV{obj: o}
+			}
+			o := in.newObj(in.zero(u.Elem()), u.Elem(), "lib")
+			o.heap = true
+			return PtrV{obj: o}
+		}
+		return in.zero(t)
+	}
+	switch res.Len() {
+	case 0:
+		return nil
+	case 1:
+		return mk(res.At(0).Type())
+	}
+	e := make([]Value, res.Len())
+	for i := range e {
+		e[i] = mk(res.At(i).Type())
+	}
+	return TupleV{E: e}
 }
